@@ -66,21 +66,27 @@ class _randobj:
                 ro_i.srcinfo_inst = SourceInfo(frame.filename, frame.lineno)
     
                 # Initialize the field_info member before going deeper            
-                if ro_i.ctor_level == 0:
+                is_root_ctor = (ro_i.ctor_level == 0)
+                if is_root_ctor:
                     self.tname = T.__qualname__
                     self._int_field_info = field_info()
                     
                     # Decide whether to record sourceinfo for this class
                     push_srcinfo_mode(srcinfo)
                     
-                # Call the user's constructor
-                ro_i.ctor_level += 1
-                super().__init__(*args, **kwargs)
-                ro_i.ctor_level -= 1
+                try:
+                    # Call the user's constructor
+                    ro_i.ctor_level += 1
+                    super().__init__(*args, **kwargs)
+                    ro_i.ctor_level -= 1
                 
-                if ro_i.ctor_level == 0:
-                    self.build_field_model(None)
-                    pop_srcinfo_mode()
+                    if ro_i.ctor_level == 0:
+                        self.build_field_model(None)
+                finally:
+                    # Leave the shared construction state idle, even
+                    # if user code raised an exception
+                    if is_root_ctor:
+                        pop_srcinfo_mode()
             
         # Add the interposer class
         ret = type(T.__name__, (randobj_interposer,), dict())
@@ -208,6 +214,9 @@ class _randobj:
                                         fo.c(self)
                                     except Exception as e:
                                         print("Exception while processing constraint: " + str(e))
+                                        # Unwind the shared construction state
+                                        pop_constraint_scope()
+                                        clear_exprs()
                                         raise e
                                     fo.set_model(pop_constraint_scope())
                                     model.add_constraint(fo.model)
@@ -221,6 +230,9 @@ class _randobj:
                                         fo.c(self)
                                     except Exception as e:
                                         print("Exception while processing constraint: " + str(e))
+                                        # Unwind the shared construction state
+                                        pop_constraint_scope()
+                                        clear_exprs()
                                         raise e
                                     fo.set_model(pop_constraint_scope())
                                     fo.model.is_dynamic = True
